@@ -3,6 +3,7 @@
 from __future__ import annotations
 
 import itertools
+import math
 import string
 import types
 from collections.abc import Callable, Iterator
@@ -193,10 +194,17 @@ class PythonParserGenerator(IndentPrintMixin, NodeWalker):
         self.print(f'{self.ctx}.token({token.token!r})')
 
     def walk_Constant(self, constant: g.Constant):
-        self.print(f'{self.ctx}.constant({constant.literal!r})')
+        self.print(f'{self.ctx}.constant({self._literal_repr(constant.literal)})')
 
     def walk_Alert(self, alert: g.Alert):
-        self.print(f'{self.ctx}.alert({alert.literal!r}, {alert.level})')
+        self.print(f'{self.ctx}.alert({self._literal_repr(alert.literal)}, {alert.level})')
+
+    @staticmethod
+    def _literal_repr(literal: Any) -> str:
+        if isinstance(literal, float) and not math.isfinite(literal):
+            # NOTE: repr() of inf and nan is not a Python expression
+            return f'float({str(literal)!r})'
+        return repr(literal)
 
     def walk_Pattern(self, pattern: g.Pattern):
         self.print(f'{self.ctx}.pattern({regexpp(pattern.pattern)})')
